@@ -2222,7 +2222,7 @@ bool IGXMLScanner::scanStartTagNS(bool& gotData)
 
     if (fGrammarType == Grammar::DTDGrammarType) {
 
-        if (!fSkipDTDValidation) {
+        if (!skipDTDValidation()) {
             elemDecl = fGrammar->getElemDecl(
                 fEmptyNamespaceId, 0, qnameRawBuf, Grammar::TOP_LEVEL_SCOPE
             );
